@@ -34,29 +34,54 @@ const refundGap = 36000
 
 // universal contract runtime: word0 of the call data = target address, word1 = mode
 //
-//	0 forward CALLVALUE to target; 1 forward then REVERT; 2 SELFDESTRUCT(target); 3 CREATE child with CALLVALUE
+//	0 forward CALLVALUE to target; 1 forward then REVERT; 2 SELFDESTRUCT(target); 3 CREATE child with CALLVALUE;
+//	4 CALL target with value = word2; 5 CREATE child with value = word2; 6 CALLCODE target with value = word2
 //
 // (assembled by buildRuntime)
 func BuildRuntime() []byte {
-	// assembled with explicit offsets so that the jump targets are checked at start-up
+	// assembled with labels so that the jump targets are checked at start-up
 	code := []byte{}
+	patches := map[string][]int{}
+	labels := map[string]int{}
 	emit := func(b ...byte) { code = append(code, b...) }
-	emit(0x60, 0x20, 0x35)                         // mode
-	emit(0x80, 0x60, 0x02, 0x14, 0x60, 0xff, 0x57) // -> sd (patched)
-	sdPatch := len(code) - 2
-	emit(0x80, 0x60, 0x03, 0x14, 0x60, 0xff, 0x57) // -> cr (patched)
-	crPatch := len(code) - 2
+	jumpi := func(l string) { emit(0x60, 0xff, 0x57); patches[l] = append(patches[l], len(code)-2) }
+	label := func(l string) { labels[l] = len(code); emit(0x5b) }
+	emit(0x60, 0x20, 0x35) // mode
+	for m, l := range []string{"", "", "sd", "cr", "cx", "crx", "ccx"} {
+		if l != "" {
+			emit(0x80, 0x60, byte(m), 0x14)
+			jumpi(l)
+		}
+	}
 	emit(0x60, 0x00, 0x60, 0x00, 0x60, 0x00, 0x60, 0x00, 0x34, 0x60, 0x00, 0x35, 0x5a, 0xf1, 0x50)
-	emit(0x60, 0x01, 0x14, 0x60, 0xff, 0x57) // -> rv (patched)
-	rvPatch := len(code) - 2
+	emit(0x60, 0x01, 0x14)
+	jumpi("rv")
 	emit(0x00)
-	rv := len(code)
-	emit(0x5b, 0x60, 0x00, 0x60, 0x00, 0xfd)
-	sd := len(code)
-	emit(0x5b, 0x60, 0x00, 0x35, 0xff)
-	cr := len(code)
-	emit(0x5b, 0x60, 0x00, 0x60, 0x00, 0x34, 0xf0, 0x50, 0x00)
-	code[sdPatch], code[crPatch], code[rvPatch] = byte(sd), byte(cr), byte(rv)
+	label("rv")
+	emit(0x60, 0x00, 0x60, 0x00, 0xfd)
+	label("sd")
+	emit(0x60, 0x00, 0x35, 0xff)
+	label("cr")
+	emit(0x60, 0x00, 0x60, 0x00, 0x34, 0xf0, 0x50, 0x00)
+	// modes with an explicit value (word2 of the call data) instead of CALLVALUE
+	label("cx") // CALL(gas, target, word2, 0, 0, 0, 0)
+	emit(0x60, 0x00, 0x60, 0x00, 0x60, 0x00, 0x60, 0x00, 0x60, 0x40, 0x35, 0x60, 0x00, 0x35, 0x5a, 0xf1, 0x50, 0x00)
+	label("crx") // CREATE(word2, 0, 0)
+	emit(0x60, 0x00, 0x60, 0x00, 0x60, 0x40, 0x35, 0xf0, 0x50, 0x00)
+	label("ccx") // CALLCODE(gas, target, word2, 0, 0, 0, 0)
+	emit(0x60, 0x00, 0x60, 0x00, 0x60, 0x00, 0x60, 0x00, 0x60, 0x40, 0x35, 0x60, 0x00, 0x35, 0x5a, 0xf2, 0x50, 0x00)
+	for l, ps := range patches {
+		at, ok := labels[l]
+		if !ok || at > 255 {
+			panic("ledgerops: bad label " + l)
+		}
+		for _, p := range ps {
+			code[p] = byte(at)
+		}
+	}
+	if len(code) > 255 {
+		panic("ledgerops: runtime too long for initCode")
+	}
 	return code
 }
 
@@ -176,6 +201,34 @@ func (w *World) Step(tr *vutil.Trace, o AbsOp, amount string, gas string) *execd
 		tx = execdrv.NewTx(types.TransactionTypeOperatorEvent, src, "", "", string(d), w.seq, salt)
 	case "Deploy":
 		tx = execdrv.NewTx(types.TransactionTypeContract, src, "", contractData(amount, initCode(Rt), gas), "", w.seq, salt)
+	case "CallExplicit":
+		// the contract moves value it names itself (not CALLVALUE): what it holds after the call's own
+		// value arrived (x = 0), one wei more (1), or 2^255 (2); by CALL, CREATE or CALLCODE (way);
+		// to itself or to the usual target. V = amount index + 3*(x + 3*(way + 3*target)), as the
+		// model's CallExplicit action writes it. Only x = 0 can move anything.
+		callee := w.addr[o.B]
+		target := w.addr[1+(o.B)%3]
+		x, way, tsel := (o.V/3)%3, (o.V/9)%3, (o.V/27)%2
+		if tsel == 0 {
+			target = callee
+		}
+		have := new(big.Int).Set(w.St.GetBalance(common.HexToAddress(callee)))
+		if v, _ := utility.StrToBigInt(amount); v != nil && v.Sign() > 0 {
+			have.Add(have, v)
+		}
+		switch x {
+		case 1:
+			have.Add(have, big.NewInt(1))
+		case 2:
+			have.Lsh(big.NewInt(1), 255)
+		}
+		if have.BitLen() > 256 {
+			have.Sub(new(big.Int).Lsh(big.NewInt(1), 256), big.NewInt(1))
+		}
+		abi := append(append(word(common.FromHex(target)), word([]byte{byte(4 + way)})...), word(have.Bytes())...)
+		tx = execdrv.NewTx(types.TransactionTypeContract, src, callee, contractData(amount, abi, gas), "", w.seq, salt)
+		kind = fmt.Sprintf("CallExplicit.%s.%s.%s", []string{"all", "over", "huge"}[x], []string{"call", "create", "callcode"}[way],
+			[]string{"self", "other"}[tsel])
 	case "CallForward", "CallRevert", "SelfDestruct", "SelfDestruct2", "CallCreate", "EthForward", "EthStale":
 		if !w.isCon[o.B] && o.Op != "SelfDestruct" {
 			// no contract under that id yet: call goes to a plain account (pure value transfer through the EVM)
